@@ -97,6 +97,14 @@ func zipFamilies() []zipFamily {
 		{"stores-of-one-value", func(n int) (string, string) {
 			return zipStores(fmt.Sprintf("Old_%d", n), n, 0), zipStores(fmt.Sprintf("New_%d", n), n, n)
 		}},
+		// revisions of very different length: one long entry block grown to twice / shrunk to
+		// half its size (a long inserted or deleted run of statements)
+		{"entry-block-doubled", func(n int) (string, string) {
+			return zipIdenticalLast(fmt.Sprintf("Old_%d", n), n/2, 2), zipIdenticalLast(fmt.Sprintf("New_%d", n), n, 3)
+		}},
+		{"entry-block-halved-distinct", func(n int) (string, string) {
+			return zipDistinctConsts(fmt.Sprintf("Old_%d", n), n, 1000), zipDistinctConsts(fmt.Sprintf("New_%d", n), n/2, 1000+n+7)
+		}},
 	}
 }
 
